@@ -446,3 +446,16 @@ _app("C11", "; a violation that needs what an earlier case left behind in the li
 _app("C15", "; STR values that are not UTF-8 (refused with INVALID, no change) are in the alphabet")
 _app("C19", "; the refused-call operation also replaces exp, nbf, iss, sub and aud by text that is not UTF-8 (refused for its value)")
 _app("C20", "; jwk2key given a file it cannot use (truncated JSON, empty, a number, unknown kty, missing) before or after a seven-key set: every key of the set is still written back")
+
+# ---------------------------------------------------------------- additions of round 14
+_app("C02", "; the key's own algorithm is modelled from the alg text the harness wrote into the JWK, not from the item the library made of it; the attribute lists carry key-management names of RFC 7518 section 4.1 (RSA-OAEP, RSA1_5, A256KW, dir, ECDH-ES, PBES2-HS256+A128KW, A128GCMKW) and near-misses (hs256, Ed25519)")
+_app("C03", "; key-management alg names (RSA-OAEP, dir) on the builder keys")
+_app("C06", "; a sixteenth configuration: a key-less checker with time_leeway(EXP, LONG_MAX) and time_leeway(NBF, LONG_MAX)")
+_app("C07", "; member shapes of 600 characters, decodable and with a foreign character")
+_app("C10", "; offsets 2^53+1 and 2^60+1 (clock + offset is odd and beyond what a double holds) and LONG_MAX (clock + offset does not fit: generate must refuse with an error)")
+_app("C12", "; an OKP private JWK that carries another key's x next to its own d (the key is what d says, under both providers)")
+_app("C13", "; an eighth checker configuration with the largest leeways, shown time claims far outside any window and time claims that are no integers")
+_app("C17", "; the number of open descriptors of the process is taken around every faulted scenario and must change as in the fault-free run")
+_app("C18", "; odd threads also verify a token whose signature has the wrong length; an execution in which no thread reaches its next scheduling point within 20 s is reported (no-progress) instead of waiting for the per-case watchdog")
+_app("C19", "; an operation that makes 255 harmless changes in a row (256 with the next one)")
+_app("C20", "; jwt-verify --verbose --print=CMD / -v -p CMD with 1, 2 and 40 (thorough also 3 and 100) valid tokens, and with a bad one added, under a limit of 64 open descriptors")
